@@ -175,6 +175,10 @@ Definition reply_with (p : packet) (command : Z) (b : body) : option (Z * packet
   | Some e => Some (e, mkPkt command (seq p) (typ p) (flg p) (node p) b (refers p) None)
   end.
 
+(* Clone(): the same packet value, not bound to an endpoint *)
+Definition clone (p : packet) : packet :=
+  mkPkt (cmd p) (seq p) (typ p) (flg p) (node p) (pbody p) (refers p) None.
+
 (* New(command, seq, flag, v) and ReplyWith(command, v) with any Go value SetBody supports: the
    value is normalised exactly as SetBody does, so that the packet has a wire form *)
 Definition new_packet (o : oracles) (command sq flag : Z) (v : gov) : packet :=
